@@ -7,6 +7,7 @@ import RapidModel.Minimize
 import RapidModel.Persist
 import RapidModel.Passes
 import RapidModel.Float
+import RapidModel.Generated.Translated
 
 namespace Rapid.Driver
 open Rapid
@@ -89,6 +90,47 @@ def showRec (used : List UInt64) (toks : List Tok) : String :=
 def restLen : Src → Nat
   | .buf ws => ws.length
   | .rng _ => 0
+
+/-! ### the recording rebuilt and pruned by the *source's* own functions
+
+  `record`, `beginGroup`, `endGroup` and `prune` of data.go as translated from /repo on every run
+  (`Rapid.Translated.recordedBits_*`) replay the recording calls of a run (its tokens); the result must have
+  the data and the finished groups the token-based model (`prunedOfToks`, which the theorems are about)
+  computes.  An `abort` token (a group left open by a panic) has no call in the source. -/
+
+def srcGI (g : Rapid.Translated.groupInfo) : GI := ⟨g.label, g.standalone, g.begin.toInt.toNat, g.end_.toInt, g.discard⟩
+
+/-- replay the recording calls with the translated source functions; `st`: indices of the open groups -/
+def srcRecGo : List Tok → List UInt64 → List Rapid.Translated.groupInfo → List Int64 → Option (List UInt64 × List Rapid.Translated.groupInfo)
+  | [], d, g, _ => some (d, g)
+  | .w u :: ts, d, g, st =>
+    match Rapid.Translated.recordedBits_record d 0 true u with
+    | .ok (d', _, _) => srcRecGo ts d' g st
+    | .error _ => none
+  | .opn l s :: ts, d, g, st =>
+    match Rapid.Translated.recordedBits_beginGroup d g 0 true l s with
+    | .ok (i, d', g', _, _) => srcRecGo ts d' g' (i :: st)
+    | .error _ => none
+  | .cls dis :: ts, d, g, i :: st =>
+    -- (a `cls false` token exists only for a group that used data: the assertion of endGroup holds)
+    match Rapid.Translated.recordedBits_endGroup d g 0 true i dis with
+    | .ok (d', g', _, _) => srcRecGo ts d' g' st
+    | .error _ => none
+  | .cls _ :: ts, d, g, [] => srcRecGo ts d g []
+  | .abort :: ts, d, g, st => srcRecGo ts d g st.tail
+
+/-- "ok" when the source's recording functions and the source's `prune` agree with the model on these tokens -/
+def srcPruneCheck (toks : List Tok) (kept : List UInt64) : String :=
+  match srcRecGo toks [] [] [] with
+  | none => "src-rec-error"
+  | some (d, g) =>
+    let lit := recOfToks toks
+    if d != lit.data || g.map srcGI != lit.groups then "src-rec-diff"
+    else
+      match Rapid.Translated.recordedBits_prune d g true (2 * g.length + 4) with
+      | .ok (d', g', _) =>
+        if d' == kept && (g'.map srcGI).filter (fun x => x.end_ ≥ 0) == (prunedOfToks toks).finished.2 then "ok" else "src-prune-diff"
+      | .error _ => if (prunedOfToks toks).noEmptyGroup then "src-prune-error" else "ok"
 
 /-- Go's `prune` panics (assert) when asked to remove an unfinished discarded group; with
     unfinished groups around it still works on the finished ones.  The model's `kept` is
@@ -313,7 +355,7 @@ def handle (line : String) : String :=
     let pc := match (recOfToks r.toks).prune with
       | some lit => if lit.finished == (prunedOfToks r.toks).finished && lit.data == r.kept then "ok" else "diff"
       | none => if (prunedOfToks r.toks).noEmptyGroup then "lit-none" else "ok"
-    s!"err={showErrSite r.err} evs={showEvs r.evs} rest={restLen r.src} {showRec r.used r.toks} pruned={showPruned r.kept} prunecheck={pc}"
+    s!"err={showErrSite r.err} evs={showEvs r.evs} rest={restLen r.src} {showRec r.used r.toks} pruned={showPruned r.kept} prunecheck={pc} srcprune={srcPruneCheck r.toks r.kept}"
   | "findbug" :: _ =>
     let p := parseProg (sdrop (fs.getD 0 "") 8)
     match spaceSplit (fs.getD 1 "") with
